@@ -109,9 +109,8 @@ Section AsmE.
 
   Definition cconst (P : eprob) : F := adec A 1 (-6) /. eo P.
 
-  Definition edge_terms (P : eprob) (xs : list F) (g : egeom) (el : eelem) (depth0 : F)
-    (Me be : list F) : F * list F * list F :=
-    fold_left (fun acc j =>
+  Definition edge_step (P : eprob) (xs : list F) (g : egeom) (el : eelem)
+    (acc : F * list F * list F) (j : nat) : F * list F * list F :=
       let '(Depth, Me, be) := acc in
       match tri_get (ee el) j with
       | None => acc
@@ -136,35 +135,56 @@ Section AsmE.
               v3add (v3add be j K) k K
             else be in
           (Depth, Me, be)
-      end) [0;1;2] (depth0, Me, be).
+      end.
 
-  (* process any prescribed nodal values; condK / condB keep, per floating conductor, the
-     couplings to prescribed nodes that the elimination removes from the matrix *)
+  Definition edge_terms (P : eprob) (xs : list F) (g : egeom) (el : eelem) (depth0 : F)
+    (Me be : list F) : F * list F * list F :=
+    fold_left (edge_step P xs g el) [0;1;2] (depth0, Me, be).
+
+  (* process any prescribed nodal values.  The (Me, be) part and the (condK, condB) part —
+     which keeps, per floating conductor, the couplings to prescribed nodes that the
+     elimination removes from the matrix — are written as two components of one fold: the
+     second reads the element matrix as it is BEFORE the step, as the C++ does. *)
+  Definition presc_inner_mb (j : nat) (vj : F) (mb : list F * list F) (k : nat) : list F * list F :=
+    if Nat.eqb j k then mb
+    else (m3set (m3set (fst mb) k j zero) j k zero,
+          vset (snd mb) k (vget A (snd mb) k -. m3get (fst mb) k j *. vj)).
+
+  Definition presc_inner_c (P : eprob) (n : nat * nat * nat) (j : nat) (vj : F)
+    (mb : list F * list F) (c : list F * list F) (k : nat) : list F * list F :=
+    if Nat.eqb j k then c
+    else match ncond (nth (tri_get n k) (nodes P) dnode) with
+         | Some cc =>
+             if Nat.eqb (ctype (nth cc (circs P) dcirc)) 0 then
+               (vset (fst c) cc (vget A (fst c) cc -. m3get (fst mb) k j),
+                vset (snd c) cc (vget A (snd c) cc +. m3get (fst mb) k j *. vj))
+             else c
+         | None => c
+         end.
+
+  Definition presc_outer_mb (V : list F) (Q : list Z) (n : nat * nat * nat)
+    (mb : list F * list F) (j : nat) : list F * list F :=
+    let nj := tri_get n j in
+    if Z.eqb (nth nj Q (-2)%Z) (-2)%Z then mb
+    else
+      let vj := vget A V nj in
+      let mb' := fold_left (presc_inner_mb j vj) [0;1;2] mb in
+      (fst mb', vset (snd mb') j (vj *. m3get (fst mb') j j)).
+
+  Definition presc_outer_c (P : eprob) (V : list F) (Q : list Z) (n : nat * nat * nat)
+    (mb : list F * list F) (c : list F * list F) (j : nat) : list F * list F :=
+    let nj := tri_get n j in
+    if Z.eqb (nth nj Q (-2)%Z) (-2)%Z then c
+    else
+      let vj := vget A V nj in
+      snd (fold_left (fun acc k => (presc_inner_mb j vj (fst acc) k, presc_inner_c P n j vj (fst acc) (snd acc) k))
+                     [0;1;2] (mb, c)).
+
   Definition presc_terms (P : eprob) (V : list F) (Q : list Z) (n : nat * nat * nat) (Me be cK cB : list F)
     : list F * list F * list F * list F :=
-    fold_left (fun acc j =>
-      let '(Me, be, cK, cB) := acc in
-      let nj := tri_get n j in
-      if Z.eqb (nth nj Q (-2)%Z) (-2)%Z then acc
-      else
-        let vj := vget A V nj in
-        let '(Me, be, cK, cB) :=
-          fold_left (fun acc k =>
-            let '(Me, be, cK, cB) := acc in
-            if Nat.eqb j k then acc
-            else
-              let '(cK, cB) :=
-                match ncond (nth (tri_get n k) (nodes P) dnode) with
-                | Some c =>
-                    if Nat.eqb (ctype (nth c (circs P) dcirc)) 0 then
-                      (vset cK c (vget A cK c -. m3get Me k j),
-                       vset cB c (vget A cB c +. m3get Me k j *. vj))
-                    else (cK, cB)
-                | None => (cK, cB)
-                end in
-              let be := vset be k (vget A be k -. m3get Me k j *. vj) in
-              (m3set (m3set Me k j zero) j k zero, be, cK, cB)) [0;1;2] (Me, be, cK, cB) in
-        (Me, vset be j (vj *. m3get Me j j), cK, cB)) [0;1;2] (Me, be, cK, cB).
+    let r := fold_left (fun acc j => (presc_outer_mb V Q n (fst acc) j, presc_outer_c P V Q n (fst acc) (snd acc) j))
+                       [0;1;2] ((Me, be), (cK, cB)) in
+    (fst (fst r), snd (fst r), fst (snd r), snd (snd r)).
 
   Definition msub (M : list (list (nat * F))) (v : F) (p q : nat) := mput M (mget A M p q -. v) p q.
   Definition madd (M : list (list (nat * F))) (v : F) (p q : nat) := mput M (mget A M p q +. v) p q.
@@ -185,8 +205,9 @@ Section AsmE.
                else madd (msub M (m3get Me j j) nj nj) (m3get Me j j) nj (ne j) in
       (M, b)) [0;1;2] (M, b).
 
-  Definition elem_step (P : eprob) (nn : nat) (extRo extRi extZo : F) (V : list F) (Q : list Z)
-    (s : estate) (el : eelem) : estate :=
+  (* element matrices before the prescribed-value processing: (Depth', kludge', Me, be) *)
+  Definition elem_matrices (P : eprob) (extRo extRi extZo : F) (Depth0 kl0 : F) (el : eelem)
+    : F * F * list F * list F :=
     let n := ep el in
     let nd := fun j => nth (tri_get n j) (nodes P) dnode in
     let g := geom (nx (nd 0)) (ny (nd 0)) (nx (nd 1)) (ny (nd 1)) (nx (nd 2)) (ny (nd 2)) in
@@ -200,7 +221,7 @@ Section AsmE.
             (gr g *. gr g +. z *. z) /. (extRi *. extRo)
           else one in
         (Depth, kludge)
-      else (sDepth s, sKludge s) in
+      else (Depth0, kl0) in
     let blk := nth (eblk el) (blocks P) dblock in
     let Me := repeat zero 9 in
     let be := repeat zero 3 in
@@ -211,8 +232,13 @@ Section AsmE.
     let Kq := aneg A Depth *. cconst P *. bqv blk *. ga g /. #3 in
     let be := v3add (v3add (v3add be 0 Kq) 1 Kq) 2 Kq in
     let '(Depth, Me, be) := edge_terms P xs g el Depth Me be in
-    let '(Me, be, cK, cB) := presc_terms P V Q n Me be (sCondK s) (sCondB s) in
-    let '(M, b) := scatter P nn n Me be (sM s) (sb s) in
+    (Depth, kludge, Me, be).
+
+  Definition elem_step (P : eprob) (nn : nat) (extRo extRi extZo : F) (V : list F) (Q : list Z)
+    (s : estate) (el : eelem) : estate :=
+    let '(Depth, kludge, Me, be) := elem_matrices P extRo extRi extZo (sDepth s) (sKludge s) el in
+    let '(Me, be, cK, cB) := presc_terms P V Q (ep el) Me be (sCondK s) (sCondB s) in
+    let '(M, b) := scatter P nn (ep el) Me be (sM s) (sb s) in
     mkES Depth kludge M b cK cB.
 
   (* point charges and conductor book-keeping; returns (Depth, b, Q) *)
